@@ -91,6 +91,7 @@ func fidelityPass(tier string, seed uint64, cov map[string]any) (int, []string) 
 			handOver(dir)
 			cmd := exec.Command(bin, args...)
 			cmd.Dir = dir
+			cmd.Env = append(os.Environ(), "GOGC=off")
 			if dropPrivileges() {
 				cmd.SysProcAttr = &syscall.SysProcAttr{Credential: &syscall.Credential{Uid: unprivUID, Gid: unprivUID}}
 			}
